@@ -158,7 +158,7 @@ Conservation ==
         /\ Len(toks) = Len(PosFlat)
         /\ \A k \in 1..Len(toks) :
               LET ad == st.d.cmds[PosTypes[k].c].args[PosTypes[k].i] IN
-              PosFlat[k] = ConvScalar(ad.vtype, ad.base, toks[k], st.ftab).v
+              ad.map \/ PosFlat[k] = ConvScalar(ad.vtype, ad.base, toks[k], st.ftab).v
      /\ \A k \in 1..Len(Execs(st.events)) : Execs(st.events)[k].args = st.retargs
 
 \* C08: the chain is a function of the command-word tokens only
